@@ -66,6 +66,9 @@ def case(args):
     kind, keysets, kinds, prov = args
     L = len(keysets) - 1
     specs = [{"keys": ks, "kind": kd} for ks, kd in zip(keysets, kinds)]
+    unstored = [j for j in range(L) if prov[j] == "unstored"]
+    for j in unstored:
+        specs[j]["unstored"] = True
     top = scratch_dir("c17")
     out = {"evaluations": 1, "states": 1, "transitions": L + 2, "traces": 1, "violations": [], "outcomes": []}
     try:
@@ -79,7 +82,7 @@ def case(args):
         bad = None
         try:
             for j in range(L):
-                if prov[j] == "fresh":
+                if prov[j] in ("fresh", "unstored"):
                     continue
                 fx.part(j, specs)
                 if prov[j] == "disk" and kind != "mem":
@@ -98,6 +101,8 @@ def case(args):
         def lower_levels(label):
             # every partition lower in the chain must still be exactly the overlay of ITS levels
             for j in range(L):
+                if j in unstored:
+                    continue
                 wj = {}
                 for lvl, ks in enumerate(keysets[:j + 1]):
                     for k in ks:
@@ -122,13 +127,20 @@ def case(args):
             except Exception as e:
                 again = None
                 bad = ("second-call-raised", "second call raised %r" % (e,))
-            if bad is None and audit.bodies():
+            if bad is None and audit.bodies() and not unstored:
                 bad = ("not-stored", "second call ran bodies %s: the merged partition was not stored" % [x[1] for x in audit.bodies()])
             if bad is None:
                 bad = check_partition(again, want, "read-back")
             if bad is None:
                 bad = lower_levels("fresh-backend")
-            if bad is None and kind != "mem":
+            if bad is None and unstored:
+                # a parent that was never serialized: whatever the library stores or refuses to store, a third call
+                # (same backend, so possibly served) still has to give the overlay
+                try:
+                    bad = check_partition(fx.part(L, specs), want, "third-call")
+                except Exception as e:
+                    bad = ("third-call-raised", "third call raised %r" % (e,))
+            if bad is None and kind != "mem" and not unstored:
                 # each key loadable on its own: get(k) opens at most the index-free blob of that key
                 b3 = mk("fs", root)
                 use(b3, top)
@@ -155,7 +167,7 @@ def run(ctx):
     maxL = 3 if thorough else 2
     ctx.rule = ("merge chains of length 0..%d; own key set per level from %s (values by key and level: int, str, list / DataFrame); "
                 "parent provenance per link in {computed in the nested call, memoized and read back from disk after reopening, "
-                "memoized and served by the memory cache}; staging kinds all in-memory / all on-disk / alternating; backends "
+                "memoized and served by the memory cache, built in memory and never serialized (lowest levels)}; staging kinds all in-memory / all on-disk / alternating; backends "
                 "filesystem, filesystem+cache, memory. distinct = (backend, key sets, staging, provenance)." % (maxL, KEYSETS))
     tasks = []
     for L in range(maxL + 1):
@@ -172,6 +184,10 @@ def run(ctx):
                         if L == 3 and len(set(prov)) == 1 and prov[0] != "fresh" and keysets[0] == []:
                             continue
                         tasks.append((kind, [list(k) for k in keysets], list(kinds), list(prov)))
+                    # the lowest u levels built in memory and never serialized (the library may refuse to store the
+                    # child; values must be right all the same, on every call)
+                    for u in range(1, L + 1):
+                        tasks.append((kind, [list(k) for k in keysets], list(kinds), ["unstored"] * u + ["fresh"] * (L - u)))
     if ctx.seed:
         import random
 
